@@ -229,31 +229,54 @@ func runC17(c *Ctx) {
 	}
 
 	c.rule("R7", "a reply without TC is returned whole: the datagram reader's buffer is a constant of at least 4095 bytes and the reply handed on is exactly the bytes read", 1)
-	if rm := c.fn(relTransport, "", "readMsgUdp"); rm != nil {
-		c.see(rm)
-		good, why := false, "no Read into a pooled buffer found"
-		eachInstr(rm, func(in ssa.Instruction) {
-			ci, ok := in.(*ssa.Call)
-			if !ok || !ci.Call.IsInvoke() || ci.Call.Method.Name() != "Read" {
-				return
-			}
-			ld, ok := ci.Call.Args[0].(*ssa.UnOp)
-			if !ok {
-				return
-			}
-			g, ok := ld.X.(*ssa.Call)
-			if !ok || callName(g) != poolGet {
-				why = "the datagram is read into " + exprStr(ci.Call.Args[0])
-				return
-			}
-			n, isC := constInt(g.Call.Args[0])
-			if !isC || n < 4095 {
-				why = "the receive buffer is " + exprStr(g.Call.Args[0]) + " bytes (a constant >= 4095 is required): a larger reply without TC is cut by the read and handed on chopped, with no TCP retry"
-				return
-			}
-			good = true
-		})
-		c.check(good, "rx-buffer", rm.Pos(), "datagrams are read into a pooled buffer of >= 4095 bytes", why)
-	}
+	checkDatagramReadBuffer(c)
+	// ---------------------------------------------------------------- R8
+	c.rule("R8", "the reply channel the TCP exchange waits on is made for that exchange (a channel kept per connection hands a late reply of an abandoned query to the next query)", 2)
+	lf := p.newLockFacts()
+	lf.analyseScope(p.funcsIn(relTransport))
+	checkFreshReplyChan(c, lf)
+}
 
+// checkDatagramReadBuffer: readMsgUdp reads every datagram into the whole pooled buffer of a constant size >= 4095:
+// nothing that shortens the buffer (a store into the pooled slice) can reach a later Read.
+func checkDatagramReadBuffer(c *Ctx) {
+	rm := c.fn(relTransport, "", "readMsgUdp")
+	if rm == nil {
+		return
+	}
+	c.see(rm)
+	good, why := false, "no Read into a pooled buffer found"
+	eachInstr(rm, func(in ssa.Instruction) {
+		ci, ok := in.(*ssa.Call)
+		if !ok || !ci.Call.IsInvoke() || ci.Call.Method.Name() != "Read" {
+			return
+		}
+		ld, ok := ci.Call.Args[0].(*ssa.UnOp)
+		if !ok {
+			return
+		}
+		g, ok := ld.X.(*ssa.Call)
+		if !ok || callName(g) != poolGet {
+			why = "the datagram is read into " + exprStr(ci.Call.Args[0])
+			return
+		}
+		n, isC := constInt(g.Call.Args[0])
+		if !isC || n < 4095 {
+			why = "the receive buffer is " + exprStr(g.Call.Args[0]) + " bytes (a constant >= 4095 is required): a larger reply without TC is cut by the read and handed on chopped, with no TCP retry"
+			return
+		}
+		good = true
+		// no reslice of the pooled buffer before a (later) read
+		for _, r := range referrers(g) {
+			st, isSt := r.(*ssa.Store)
+			if !isSt || st.Addr != ssa.Value(g) {
+				continue
+			}
+			if _, again := reachAvoiding(st, func(x ssa.Instruction) bool { return x == in }, nil); again {
+				good = false
+				why = "the pooled buffer is re-sliced (" + c.P.pos(st.Pos()) + ") on a path that reads again: after one short datagram every later datagram is cut to that length and dropped as too small, although the reply arrived"
+			}
+		}
+	})
+	c.check(good, "rx-buffer", rm.Pos(), "datagrams are read into the whole pooled buffer of >= 4095 bytes", why)
 }
